@@ -48,9 +48,9 @@ def run(ctx):
                 req.append(("%s/%s" % (a, t), st, 20))
             req.append(("ratio-last/%s" % t, st, 10))
             req.append(("ratio-interior/%s" % t, st, 10))
-    ctx.run_events(bins["asan"], ctx.n(12000, 600000), require=req, keymap=keymap, timeout=1800)
+    ctx.run_events(bins["asan"], ctx.n(12000, 160000), require=req, keymap=keymap, timeout=3600)
     if ctx.thorough:
-        ctx.run_events(bins["O2"], 400000, require=[], keymap=keymap, timeout=1800)
+        ctx.run_events(bins["O2"], 160000, require=[], keymap=keymap, timeout=3600)
     ctx.assumptions += [
         "the ratio is judged for constancy only (its value is not prescribed by the property)",
         "element lengths are differences of the returned nodes: a length below ~1e4 ulp of the node coordinates is outside the domain",
